@@ -40,6 +40,8 @@ type Case struct {
 	// CloneOf: Schema is not built from scratch but reached from this one by build, Clone, edit of the
 	// clone's enum values, build again (gqlgen.BuildViaClone). It differs from Schema in enum values only.
 	CloneOf *gqlgen.SchemaDesc `json:"clone_of,omitempty"`
+	// Meta: introspection meta fields of the query type to put where the placeholders stand (meta.go)
+	Meta []gqlgen.MetaUse `json:"meta,omitempty"`
 }
 
 // Eval is everything observed for one case.
@@ -246,6 +248,13 @@ func (h *harness) evaluate(c *Case) *Eval {
 	if ev.Kind == "" && c.World.HasAsync() {
 		h.evalAsync(ev, b, doc, c)
 	}
+	// the same request with `__schema` / `__type` where the placeholders stand
+	if ev.Kind == "" && len(c.Meta) > 0 && !ev.Ref.RequestError {
+		h.metaCheck(ev, b, c, nil)
+		if ev.Kind == "" && c.World.HasAsync() {
+			h.metaCheck(ev, b, c, gqlgen.NewScheduler(c.AsyncSeed))
+		}
+	}
 	return ev
 }
 
@@ -439,6 +448,9 @@ func (h *harness) record(c *Case, ev *Eval, family string) {
 	}
 	okProp := ev.Kind != "property" && ev.Kind != "crash"
 	run.Oblige("oracle: data = Ref.data (ordered), required ⊆ errors ⊆ all by (path, locations), each failure-null explained exactly once", "oracle", 1, okProp, ev.What)
+	if len(c.Meta) > 0 {
+		run.Oblige("oracle: `__schema` / `__type` selected wherever the query type is the parent (root and beneath it) yield the root-level introspection value at the placeholder's key, nothing else in data / errors changes", "oracle", 1, !strings.HasPrefix(ev.Oracle, "meta-"), ev.What)
+	}
 	if h.model != nil {
 		run.Oblige("correspondence: model observable = graphql.Execute observable (ordered data, errors in order)", "correspondence", 1, !(ev.Kind == "correspondence" && ev.Oracle != "leanspec-vs-goref" && ev.Oracle != "positions-not-distinct" && ev.Oracle != "theorem-hypotheses"), ev.What)
 		run.Oblige("correspondence: Lean Spec (data, all, required) = Go Ref", "correspondence", 1, !(ev.Kind == "correspondence" && ev.Oracle == "leanspec-vs-goref"), ev.What)
@@ -602,7 +614,17 @@ func randomCase(r *hx.Rand) *Case {
 		}
 		note += "long-schema-names"
 	}
-	c := &Case{Schema: s, Doc: req.Doc, Layout: gqlgen.RandomLayout(r), Variables: req.Variables, OpName: req.OpName, Note: note}
+	var meta []gqlgen.MetaUse
+	if (s.HasNestedRoot() && r.Chance(2, 3)) || r.Chance(1, 12) {
+		// `__schema` / `__type` wherever the query type is the parent, at the root and beneath it
+		if meta = gqlgen.AddMetaPlaceholders(r.Fork(), s, req); len(meta) > 0 {
+			if note != "" {
+				note += "+"
+			}
+			note += "meta-fields"
+		}
+	}
+	c := &Case{Schema: s, Doc: req.Doc, Layout: gqlgen.RandomLayout(r), Variables: req.Variables, OpName: req.OpName, Note: note, Meta: meta}
 	c.Query = req.Doc.Print(c.Layout)
 	op := req.Doc.SelectedOp(req.OpName)
 	if op == nil {
